@@ -14,11 +14,11 @@ def _unpk(b):
     return pickle.loads(b)
 
 
-def entry_spec(p, style, args_src="()", options=None):
+def entry_spec(p, style, args_src="()", options=None, keep_path=None):
     f = p["fns"][p["entry"]]
     ent = {"style": style, "module": gen.modname(p, f["module"]), "func": f["name"], "args_src": args_src}
     if style == "keep":
-        ent["path"] = "/entry_kept"
+        ent["path"] = keep_path or "/entry_kept"
     if options:
         ent["options"] = options
     return ent
@@ -70,8 +70,8 @@ def compile_case(case, root, store_dir, ref_paths_file):
                 step["write"] = gen.render(p)
                 step["how"] = "reload" if p["pkg"] == q["pkg"] else "import"
                 step["modules"] = gen.import_order(p)
-        step["entry"] = entry_spec(p, st.get("style", "eval"), case.get("entry_args", "()"), st.get("options"))
-        for path in gen.kept_nodes(p):
+        step["entry"] = entry_spec(p, st.get("style", "eval"), st.get("args_src") or case.get("entry_args", "()"), st.get("options"), st.get("keep_path"))
+        for path in list(gen.kept_nodes(p)) + ([st["keep_path"]] if st.get("keep_path") else []):
             if path not in all_paths:
                 all_paths.append(path)
         step["post_loads"] = list(all_paths)
@@ -280,7 +280,12 @@ def oracle_memo(case, obs, rep, upto=None, classify=None):
         if im.get("result", ("exc",))[0] != "ok":
             break
         nodes = gen.kept_nodes(p)
-        fps = dict((path, gen.node_fp(p, n, (), case.get("entry_args", "()"), path_fp)) for path, n in nodes.items())
+        if st.get("keep_path"):
+            # the entry itself is kept by the top-level call dds.keep(keep_path, entry, *args)
+            nodes = dict(nodes)
+            nodes[st["keep_path"]] = {"path": st["keep_path"], "fn": p["entry"], "site": None, "args": [], "kind": "keep"}
+        eargs = st.get("args_src") or case.get("entry_args", "()")
+        fps = dict((path, gen.node_fp(p, n, (), eargs, path_fp)) for path, n in nodes.items())
         sigs = sig_map(o)
         log = im["log"]
         if st.get("style", "eval") == "keep":
